@@ -30,7 +30,7 @@ pub fn projected(name: &str, targets: usize) -> Vec<Ev> {
         other => panic!("MACHINERY: projection {other}"),
     };
     let mut v: Vec<Ev> = keys.into_iter().map(Ev::Key).collect();
-    let traces: &[TraceEv] = if name == "settings" { &[TraceEv::Path3] } else { &[TraceEv::Path3, TraceEv::Path2, TraceEv::Branch, TraceEv::Silent, TraceEv::Error] };
+    let traces: &[TraceEv] = if name == "settings" { &[TraceEv::Path3] } else { &[TraceEv::Path3, TraceEv::Path2, TraceEv::Branch, TraceEv::Silent, TraceEv::SilentKnown, TraceEv::Error] };
     for t in traces {
         for i in 0..targets {
             v.push(Ev::Trace(*t, i));
@@ -269,7 +269,7 @@ pub fn run(args: &Args) -> i32 {
     rep.set("redraws_at_other_sizes", json!(redraws));
     rep.set("terminal_sizes", json!(sizes.len()));
     rep.set("phases", json!(phases));
-    rep.set("rule", json!("state = history of events replayed on a fresh real TuiApp (+ real un-started Tracers fed by verif_apply_round) drawn with the real render on a TestBackend; events = every binding of run_app's dispatch chain under the same mode gating (46 commands; table checked against the source at start-up) + 7 trace updates per target (3-hop path, shorter path, other ECMP branch, nothing answers, failed probes, 5-hop path with unknown hop, fatal error); each step does what one turn of run_app does (snapshot/clamp/order unless frozen, draw). Level-synchronous BFS de-duplicated on a canonical key (UI fields verbatim, trace state by shape); full alphabet to the depth bound per configuration, projected alphabets towards a fixpoint; settings dialog: navigation fixpoint (every tab, every row), then every sequence of <= 2 (quick; 1 on the column-set variants; 3 thorough) dialog events from every navigation state; every picked reached state re-drawn at the listed terminal sizes. Oracle: no panic in any command, loop-top or draw; selected hop/address/flow/trace/settings tab refer to existing entries before every draw"));
+    rep.set("rule", json!("state = history of events replayed on a fresh real TuiApp (+ real un-started Tracers fed by verif_apply_round) drawn with the real render on a TestBackend; events = every binding of run_app's dispatch chain under the same mode gating (46 commands; table checked against the source at start-up) + 8 trace updates per target (3-hop path, shorter path, other ECMP branch, nothing answers, nothing answers with the target distance carried over from an earlier round, failed probes, 5-hop path with unknown hop, fatal error); each step does what one turn of run_app does (snapshot/clamp/order unless frozen, draw). Level-synchronous BFS de-duplicated on a canonical key (UI fields verbatim, trace state by shape); full alphabet to the depth bound per configuration, projected alphabets towards a fixpoint; settings dialog: navigation fixpoint (every tab, every row), then every sequence of <= 2 (quick; 1 on the column-set variants; 3 thorough) dialog events from every navigation state; every picked reached state re-drawn at the listed terminal sizes. Oracle: no panic in any command, loop-top or draw; selected hop/address/flow/trace/settings tab refer to existing entries before every draw"));
     rep.sample(json!({"config": "single-target", "history": ["trace0:Branch", "key:toggle_flows", "key:clear_trace_data"]}));
     rep.assumptions = vec!["command table replicates run_app's dispatch (self-checked against the source text)".into(), "clock pinned; DNS cache pre-seeded (flush re-seeds at once); GeoIP from a generated fixture".into(), "counters/latencies are not part of the canonical key (DESIGN.md 3/C17)".into()];
     rep.finish()
